@@ -4,3 +4,4 @@ import Helm.Props.C04
 import Helm.Props.C11
 import Helm.Props.C10
 import Helm.Props.C18
+import Helm.Props.C16
